@@ -625,7 +625,17 @@ def c_option(view, bs):
     other_region = set()
     for t in other_ts:
         other_region |= view.reachable(t)
+    oks_ = []
     for kind, bb, term, op in ok_assignments(view):
+        if kind == "ok" and canon(view, term)[0] == "multi":
+            # `Ok(match value { Null => None, v => Some(..) })`: the payload is built in several arms; judge each where it is built
+            for bb3 in sorted(view.reach):
+                for st3 in view.blocks[bb3]["stmts"]:
+                    if st3["k"] == "assign" and not st3["place"]["p"] and st3["place"]["l"] == canon(view, term)[1]:
+                        oks_.append(("ok", bb3, view.origin_rv(st3["rv"], bb3), None))
+        else:
+            oks_.append((kind, bb, term, op))
+    for kind, bb, term, op in oks_:
         ob += 1
         if kind == "ok":
             t = canon(view, term)
